@@ -1,0 +1,96 @@
+//go:build verif
+// +build verif
+
+package fp
+
+// Verification hooks (build tag "verif"): read-only access to unexported pieces. Nothing here changes behaviour.
+
+// VerifReadFloat exposes readFloat.
+func VerifReadFloat(data []byte) (mantissa uint64, exp int, neg, trunc bool, p int, ok bool) {
+	return readFloat(data)
+}
+
+// VerifAtof64exact exposes atof64exact.
+func VerifAtof64exact(mantissa uint64, exp int, neg bool) (float64, bool) {
+	return atof64exact(mantissa, exp, neg)
+}
+
+// VerifEiselLemire64 exposes eiselLemire64.
+func VerifEiselLemire64(man uint64, exp10 int, neg bool) (float64, bool) {
+	return eiselLemire64(man, exp10, neg)
+}
+
+// VerifDecimal runs the slow path (decimal.set + floatBits) alone.
+func VerifDecimal(data []byte) (bits uint64, ovf, ok bool) {
+	var d decimal
+	if !d.set(data) {
+		return 0, false, false
+	}
+	bits, ovf = d.floatBits()
+	return bits, ovf, true
+}
+
+// VerifDecimalState is a snapshot of a decimal.
+type VerifDecimalState struct {
+	Digits []byte
+	Dp     int
+	Neg    bool
+	Trunc  bool
+}
+
+func snap(d *decimal) VerifDecimalState {
+	return VerifDecimalState{Digits: append([]byte(nil), d.d[:d.nd]...), Dp: d.dp, Neg: d.neg, Trunc: d.trunc}
+}
+
+// VerifDecimalSet runs decimal.set and returns the resulting state.
+func VerifDecimalSet(data []byte) (VerifDecimalState, bool) {
+	var d decimal
+	ok := d.set(data)
+	return snap(&d), ok
+}
+
+// VerifDecimalShift builds a decimal from a state, shifts it by k and returns the new state.
+func VerifDecimalShift(s VerifDecimalState, k int) VerifDecimalState {
+	var d decimal
+	copy(d.d[:], s.Digits)
+	d.nd = len(s.Digits)
+	if d.nd > len(d.d) {
+		d.nd = len(d.d)
+	}
+	d.dp, d.neg, d.trunc = s.Dp, s.Neg, s.Trunc
+	d.Shift(k)
+	return snap(&d)
+}
+
+// VerifDecimalRounded builds a decimal from a state and returns RoundedInteger.
+func VerifDecimalRounded(s VerifDecimalState) uint64 {
+	var d decimal
+	copy(d.d[:], s.Digits)
+	d.nd = len(s.Digits)
+	if d.nd > len(d.d) {
+		d.nd = len(d.d)
+	}
+	d.dp, d.neg, d.trunc = s.Dp, s.Neg, s.Trunc
+	return d.RoundedInteger()
+}
+
+// VerifTables returns copies of the package tables.
+func VerifTables() (pow [][2]uint64, minExp, maxExp int, cheatsDelta []int, cheatsCutoff []string, powtabCopy []int, f64pow10 []float64, digitsCopy [256]bool) {
+	pow = make([][2]uint64, len(detailedPowersOfTen))
+	for i := range detailedPowersOfTen {
+		pow[i] = detailedPowersOfTen[i]
+	}
+	for _, c := range leftcheats {
+		cheatsDelta = append(cheatsDelta, c.delta)
+		cheatsCutoff = append(cheatsCutoff, c.cutoff)
+	}
+	powtabCopy = append([]int(nil), powtab...)
+	f64pow10 = append([]float64(nil), float64pow10...)
+	return pow, detailedPowersOfTenMinExp10, detailedPowersOfTenMaxExp10, cheatsDelta, cheatsCutoff, powtabCopy, f64pow10, digits
+}
+
+// VerifConsts returns the numeric constants of the decimal path.
+func VerifConsts() (mantBits, expBits uint, biasV int, maxShiftV int, decimalDigits int) {
+	var d decimal
+	return mantbits, expbits, bias, maxShift, len(d.d)
+}
